@@ -8,6 +8,7 @@ package main
 
 import (
 	"encoding/json"
+	"math/rand"
 	"os"
 	"sort"
 	"strconv"
@@ -29,6 +30,184 @@ func c18Norm(segs []string) []string {
 	return out
 }
 
+// c18RandomCase draws one random package (record modes).
+func c18RandomCase(rnd *rand.Rand, maxK int, fmts []string) c18Case {
+	pick := func(xs ...string) string { return xs[rnd.Intn(len(xs))] }
+	c := c18Case{Fmt: fmts[rnd.Intn(len(fmts))]}
+	pr := c18Prof{Paths: pick("std", "nested", "renamed", "dot"), Alias: "none", Tgt: pick("rel", "abs"), Extras: rnd.Intn(2) == 0, Infra: rnd.Intn(2) == 0,
+		Enc: "none", Opf: "root", Ver: 0}
+	var rel []string
+	stem, ext := "", "xml"
+	switch c.Fmt {
+	case "xlsx":
+		c.Base = []string{"xl"}
+		rel = map[string][]string{"std": {"worksheets"}, "nested": {"worksheets", "sub"}, "renamed": {"data"}, "dot": {".", "worksheets"}}[pr.Paths]
+		stem = map[string]string{"std": "sheet", "nested": "sheet", "renamed": "tab", "dot": "sheet"}[pr.Paths]
+		pr.Enc = pick("none", "none", "sp20", "plusLit", "pct2520", "eC3A9", "paren", "amp")
+		pr.Alias = pick("none", "decoded", "query")
+	case "pptx":
+		c.Base = []string{"ppt"}
+		rel = map[string][]string{"std": {"slides"}, "nested": {"slides", "deck"}, "renamed": {"pages"}, "dot": {".", "slides"}}[pr.Paths]
+		stem = map[string]string{"std": "slide", "nested": "slide", "renamed": "page", "dot": "slide"}[pr.Paths]
+		pr.Enc = pick("none", "none", "sp20", "plusLit", "pct2520", "eC3A9", "paren", "amp")
+		pr.Alias = pick("none", "decoded", "query")
+	case "epub":
+		pr.Tgt = "rel"
+		pr.Enc = pick("none", "sp20", "plusLit", "plus2B", "pct2520", "pct25z", "eC3A9", "eRaw", "paren", "amp")
+		pr.Alias = pick("none", "decoded", "undecoded", "query")
+		pr.Opf = pick("root", "one", "two")
+		if pr.Paths == "renamed" && pr.Opf == "root" {
+			pr.Opf = "one"
+		}
+		pr.Ver = 2 + rnd.Intn(2)
+		pr.Extra = rnd.Intn(2) == 0
+		c.Base = map[string][]string{"root": {}, "one": {"OEBPS"}, "two": {"OPS", "pkg"}}[pr.Opf]
+		rel = map[string][]string{"std": {}, "nested": {"text", "part"}, "renamed": {"..", "text"}, "dot": {".", "text"}}[pr.Paths]
+		stem = map[string]string{"std": "ch", "nested": "ch", "renamed": "sec", "dot": "ch"}[pr.Paths]
+		ext = "xhtml"
+	}
+	c.Prof = pr
+	k := 1 + rnd.Intn(maxK)
+	if k >= 2 && rnd.Intn(3) == 0 {
+		pr.Missing = 1 + rnd.Intn(k) // the part declared at this position is absent from the archive
+		c.Prof = pr
+	}
+	ndecoy := rnd.Intn(3)
+	nextra := 0
+	if pr.Extra {
+		nextra = 1
+	}
+	total := k + ndecoy + nextra
+	nums := rnd.Perm(60)[:total] // numbers in the file names
+	sort.Ints(nums)
+	ids := rnd.Perm(60)[:k] // content tokens 1..60 of the declared parts
+	declPerm, relPerm, zipPerm := rnd.Perm(k), rnd.Perm(k), rnd.Perm(total)
+	// which of the name numbers go to decoys: random positions
+	roles := rnd.Perm(total)
+	// the generator's own copy of the naming rules (PartsOrderTrace re-checks every package):
+	// EPUB hrefs are percent-decoded once, OPC targets are the member name text
+	pathDec := map[string]string{"none": "none", "sp20": "space", "plusLit": "plus", "plus2B": "plus", "pct2520": "pct20",
+		"pct25z": "pctz", "eC3A9": "eacute", "eRaw": "eacute", "paren": "paren", "amp": "amp"}
+	literal := map[string]string{"none": "none", "sp20": "pct20", "plusLit": "plus", "plus2B": "pct2B", "pct2520": "pct2520",
+		"pct25z": "pct25z", "eC3A9": "pctC3A9", "eRaw": "eacute", "paren": "paren", "amp": "amp"}
+	reDec := map[string]string{"pct20": "space", "pct2B": "plus", "pctC3A9": "eacute", "pct2520": "pct20", "pct25z": "pctz"}
+	sp := literal[pr.Enc]
+	if c.Fmt == "epub" {
+		sp = pathDec[pr.Enc]
+	}
+	aliasSp := sp
+	switch pr.Alias {
+	case "decoded":
+		if v, ok := reDec[sp]; ok {
+			aliasSp = v
+		}
+	case "undecoded":
+		aliasSp = literal[pr.Enc]
+	case "query":
+		if sp == "plus" {
+			aliasSp = "space"
+		}
+	}
+	mk := func(id, n, decl, rl, zp int) c18Part {
+		h := c18Href{Abs: pr.Tgt == "abs", Stem: stem, Enc: pr.Enc, N: n, Ext: ext}
+		if h.Abs {
+			h.Segs = append(append([]string{}, c.Base...), rel...)
+		} else {
+			h.Segs = append([]string{}, rel...)
+		}
+		full := h.Segs
+		if !h.Abs {
+			full = append(append([]string{}, c.Base...), rel...)
+		}
+		return c18Part{ID: id, Name: c18Name{Dir: c18Norm(full), Stem: stem, Sp: sp, N: n, Ext: ext}, Href: h, Decl: decl, Rel: rl, Zip: zp,
+			Present: decl == 0 || decl != pr.Missing}
+	}
+	for j := 0; j < total; j++ {
+		role := roles[j]
+		n := nums[j] + 1
+		switch {
+		case role < k:
+			c.Parts = append(c.Parts, mk(ids[role]+1, n, declPerm[role]+1, relPerm[role]+1, zipPerm[j]+1))
+		case role < k+ndecoy:
+			// decoys reuse token 90 in the rendered content only once; further decoys get 93, 94
+			c.Parts = append(c.Parts, mk([]int{90, 93, 94}[role-k], n, 0, 0, zipPerm[j]+1))
+		default:
+			c.Parts = append(c.Parts, mk(91, n, 0, k+1, zipPerm[j]+1))
+		}
+	}
+	// decoys named like a wrong reading of each declared reference
+	if aliasSp != sp {
+		np := len(c.Parts)
+		for j := 0; j < np; j++ {
+			if p := c.Parts[j]; p.Decl > 0 {
+				d := p
+				d.ID, d.Decl, d.Rel, d.Zip, d.Present = 100+p.ID, 0, 0, total+2+j, true
+				d.Name.Dir = append([]string{}, p.Name.Dir...)
+				d.Name.Sp = aliasSp
+				c.Parts = append(c.Parts, d)
+			}
+		}
+	}
+	// a decoy under the conventional name of the missing position (real parts live elsewhere)
+	if pr.Missing > 0 && (pr.Paths == "nested" || pr.Paths == "renamed") && c.Fmt != "epub" && rnd.Intn(2) == 0 {
+		cdir := map[string][]string{"xlsx": {"xl", "worksheets"}, "pptx": {"ppt", "slides"}}[c.Fmt]
+		cstem := map[string]string{"xlsx": "sheet", "pptx": "slide"}[c.Fmt]
+		d := mk(95, pr.Missing, 0, 0, total+1)
+		d.Name.Sp, d.Href.Enc = "none", "none"
+		d.Name.Dir, d.Name.Stem = cdir, cstem
+		d.Href.Abs, d.Href.Segs, d.Href.Stem = false, cdir[1:], cstem
+		c.Parts = append(c.Parts, d)
+	}
+	// for the signature hint only (never for the verdict): ids by declared position
+	ps := []c18Part{}
+	for _, p := range c.Parts {
+		if p.Decl > 0 && p.Present {
+			ps = append(ps, p)
+		}
+	}
+	sort.SliceStable(ps, func(a, b int) bool { return ps[a].Decl < ps[b].Decl })
+	for _, p := range ps {
+		c.Pages = append(c.Pages, p.ID)
+	}
+	c.Count = len(ps)
+
+	// the declaration chain
+	main := c18Root{Media: "opf", Auth: true, Dir: append([]string{}, c.Base...), File: "content", Spine: []int{}, Hrefs: []c18Href{}}
+	c.Roots = []c18Root{main}
+	if c.Fmt == "epub" {
+		if pr.Ver == 2 && rnd.Intn(3) == 0 {
+			c.Roots = append([]c18Root{{Media: "other", Dir: []string{"alt"}, File: "book", Spine: []int{}, Hrefs: []c18Href{}}}, c.Roots...)
+		}
+		for a := rnd.Intn(3); a > 0; a-- { // further package documents after the default one
+			alt := c18Root{Media: "opf", File: "alt" + strconv.Itoa(a), Spine: []int{}, Hrefs: []c18Href{}}
+			inRoot := rnd.Intn(2) == 0
+			if inRoot {
+				alt.Dir = []string{}
+			} else {
+				alt.Dir = append([]string{}, c.Base...)
+			}
+			for _, j := range rnd.Perm(len(c.Parts)) {
+				p := c.Parts[j]
+				if rnd.Intn(3) == 0 {
+					continue
+				}
+				h := p.Href
+				if inRoot {
+					h.Abs, h.Segs = false, append([]string{}, p.Name.Dir...)
+				}
+				alt.Spine = append(alt.Spine, p.ID)
+				alt.Hrefs = append(alt.Hrefs, h)
+			}
+			c.Roots = append(c.Roots, alt)
+			pr.Chain = "random"
+		}
+	} else if rnd.Intn(2) == 0 {
+		pr.Chain = "infraFirst"
+	}
+	c.Prof = pr
+	return c
+}
+
 func c18Record(i int, raw []byte) Result {
 	var q struct {
 		N    int `json:"n"`
@@ -39,182 +218,10 @@ func c18Record(i int, raw []byte) Result {
 		return fail("decode", "decode", err.Error(), nil)
 	}
 	rnd := newRand(int64(q.Salt)*104729 + 18)
-	pick := func(xs ...string) string { return xs[rnd.Intn(len(xs))] }
 	var events []Event
 	segs := 0
 	for w := 0; w < q.N; w++ {
-		c := c18Case{Fmt: pick("xlsx", "pptx", "epub")}
-		pr := c18Prof{Paths: pick("std", "nested", "renamed", "dot"), Alias: "none", Tgt: pick("rel", "abs"), Extras: rnd.Intn(2) == 0, Infra: rnd.Intn(2) == 0,
-			Enc: "none", Opf: "root", Ver: 0}
-		var rel []string
-		stem, ext := "", "xml"
-		switch c.Fmt {
-		case "xlsx":
-			c.Base = []string{"xl"}
-			rel = map[string][]string{"std": {"worksheets"}, "nested": {"worksheets", "sub"}, "renamed": {"data"}, "dot": {".", "worksheets"}}[pr.Paths]
-			stem = map[string]string{"std": "sheet", "nested": "sheet", "renamed": "tab", "dot": "sheet"}[pr.Paths]
-			pr.Enc = pick("none", "none", "sp20", "plusLit", "pct2520", "eC3A9", "paren", "amp")
-			pr.Alias = pick("none", "decoded", "query")
-		case "pptx":
-			c.Base = []string{"ppt"}
-			rel = map[string][]string{"std": {"slides"}, "nested": {"slides", "deck"}, "renamed": {"pages"}, "dot": {".", "slides"}}[pr.Paths]
-			stem = map[string]string{"std": "slide", "nested": "slide", "renamed": "page", "dot": "slide"}[pr.Paths]
-			pr.Enc = pick("none", "none", "sp20", "plusLit", "pct2520", "eC3A9", "paren", "amp")
-			pr.Alias = pick("none", "decoded", "query")
-		case "epub":
-			pr.Tgt = "rel"
-			pr.Enc = pick("none", "sp20", "plusLit", "plus2B", "pct2520", "pct25z", "eC3A9", "eRaw", "paren", "amp")
-			pr.Alias = pick("none", "decoded", "undecoded", "query")
-			pr.Opf = pick("root", "one", "two")
-			if pr.Paths == "renamed" && pr.Opf == "root" {
-				pr.Opf = "one"
-			}
-			pr.Ver = 2 + rnd.Intn(2)
-			pr.Extra = rnd.Intn(2) == 0
-			c.Base = map[string][]string{"root": {}, "one": {"OEBPS"}, "two": {"OPS", "pkg"}}[pr.Opf]
-			rel = map[string][]string{"std": {}, "nested": {"text", "part"}, "renamed": {"..", "text"}, "dot": {".", "text"}}[pr.Paths]
-			stem = map[string]string{"std": "ch", "nested": "ch", "renamed": "sec", "dot": "ch"}[pr.Paths]
-			ext = "xhtml"
-		}
-		c.Prof = pr
-		k := 1 + rnd.Intn(q.K)
-		if k >= 2 && rnd.Intn(3) == 0 {
-			pr.Missing = 1 + rnd.Intn(k) // the part declared at this position is absent from the archive
-			c.Prof = pr
-		}
-		ndecoy := rnd.Intn(3)
-		nextra := 0
-		if pr.Extra {
-			nextra = 1
-		}
-		total := k + ndecoy + nextra
-		nums := rnd.Perm(60)[:total] // numbers in the file names
-		sort.Ints(nums)
-		ids := rnd.Perm(60)[:k] // content tokens 1..60 of the declared parts
-		declPerm, relPerm, zipPerm := rnd.Perm(k), rnd.Perm(k), rnd.Perm(total)
-		// which of the name numbers go to decoys: random positions
-		roles := rnd.Perm(total)
-		// the generator's own copy of the naming rules (PartsOrderTrace re-checks every package):
-		// EPUB hrefs are percent-decoded once, OPC targets are the member name text
-		pathDec := map[string]string{"none": "none", "sp20": "space", "plusLit": "plus", "plus2B": "plus", "pct2520": "pct20",
-			"pct25z": "pctz", "eC3A9": "eacute", "eRaw": "eacute", "paren": "paren", "amp": "amp"}
-		literal := map[string]string{"none": "none", "sp20": "pct20", "plusLit": "plus", "plus2B": "pct2B", "pct2520": "pct2520",
-			"pct25z": "pct25z", "eC3A9": "pctC3A9", "eRaw": "eacute", "paren": "paren", "amp": "amp"}
-		reDec := map[string]string{"pct20": "space", "pct2B": "plus", "pctC3A9": "eacute", "pct2520": "pct20", "pct25z": "pctz"}
-		sp := literal[pr.Enc]
-		if c.Fmt == "epub" {
-			sp = pathDec[pr.Enc]
-		}
-		aliasSp := sp
-		switch pr.Alias {
-		case "decoded":
-			if v, ok := reDec[sp]; ok {
-				aliasSp = v
-			}
-		case "undecoded":
-			aliasSp = literal[pr.Enc]
-		case "query":
-			if sp == "plus" {
-				aliasSp = "space"
-			}
-		}
-		mk := func(id, n, decl, rl, zp int) c18Part {
-			h := c18Href{Abs: pr.Tgt == "abs", Stem: stem, Enc: pr.Enc, N: n, Ext: ext}
-			if h.Abs {
-				h.Segs = append(append([]string{}, c.Base...), rel...)
-			} else {
-				h.Segs = append([]string{}, rel...)
-			}
-			full := h.Segs
-			if !h.Abs {
-				full = append(append([]string{}, c.Base...), rel...)
-			}
-			return c18Part{ID: id, Name: c18Name{Dir: c18Norm(full), Stem: stem, Sp: sp, N: n, Ext: ext}, Href: h, Decl: decl, Rel: rl, Zip: zp,
-				Present: decl == 0 || decl != pr.Missing}
-		}
-		for j := 0; j < total; j++ {
-			role := roles[j]
-			n := nums[j] + 1
-			switch {
-			case role < k:
-				c.Parts = append(c.Parts, mk(ids[role]+1, n, declPerm[role]+1, relPerm[role]+1, zipPerm[j]+1))
-			case role < k+ndecoy:
-				// decoys reuse token 90 in the rendered content only once; further decoys get 93, 94
-				c.Parts = append(c.Parts, mk([]int{90, 93, 94}[role-k], n, 0, 0, zipPerm[j]+1))
-			default:
-				c.Parts = append(c.Parts, mk(91, n, 0, k+1, zipPerm[j]+1))
-			}
-		}
-		// decoys named like a wrong reading of each declared reference
-		if aliasSp != sp {
-			np := len(c.Parts)
-			for j := 0; j < np; j++ {
-				if p := c.Parts[j]; p.Decl > 0 {
-					d := p
-					d.ID, d.Decl, d.Rel, d.Zip, d.Present = 100+p.ID, 0, 0, total+2+j, true
-					d.Name.Dir = append([]string{}, p.Name.Dir...)
-					d.Name.Sp = aliasSp
-					c.Parts = append(c.Parts, d)
-				}
-			}
-		}
-		// a decoy under the conventional name of the missing position (real parts live elsewhere)
-		if pr.Missing > 0 && (pr.Paths == "nested" || pr.Paths == "renamed") && c.Fmt != "epub" && rnd.Intn(2) == 0 {
-			cdir := map[string][]string{"xlsx": {"xl", "worksheets"}, "pptx": {"ppt", "slides"}}[c.Fmt]
-			cstem := map[string]string{"xlsx": "sheet", "pptx": "slide"}[c.Fmt]
-			d := mk(95, pr.Missing, 0, 0, total+1)
-			d.Name.Sp, d.Href.Enc = "none", "none"
-			d.Name.Dir, d.Name.Stem = cdir, cstem
-			d.Href.Abs, d.Href.Segs, d.Href.Stem = false, cdir[1:], cstem
-			c.Parts = append(c.Parts, d)
-		}
-		// for the signature hint only (never for the verdict): ids by declared position
-		ps := []c18Part{}
-		for _, p := range c.Parts {
-			if p.Decl > 0 && p.Present {
-				ps = append(ps, p)
-			}
-		}
-		sort.SliceStable(ps, func(a, b int) bool { return ps[a].Decl < ps[b].Decl })
-		for _, p := range ps {
-			c.Pages = append(c.Pages, p.ID)
-		}
-		c.Count = len(ps)
-
-		// the declaration chain
-		main := c18Root{Media: "opf", Auth: true, Dir: append([]string{}, c.Base...), File: "content", Spine: []int{}, Hrefs: []c18Href{}}
-		c.Roots = []c18Root{main}
-		if c.Fmt == "epub" {
-			if pr.Ver == 2 && rnd.Intn(3) == 0 {
-				c.Roots = append([]c18Root{{Media: "other", Dir: []string{"alt"}, File: "book", Spine: []int{}, Hrefs: []c18Href{}}}, c.Roots...)
-			}
-			for a := rnd.Intn(3); a > 0; a-- { // further package documents after the default one
-				alt := c18Root{Media: "opf", File: "alt" + strconv.Itoa(a), Spine: []int{}, Hrefs: []c18Href{}}
-				inRoot := rnd.Intn(2) == 0
-				if inRoot {
-					alt.Dir = []string{}
-				} else {
-					alt.Dir = append([]string{}, c.Base...)
-				}
-				for _, j := range rnd.Perm(len(c.Parts)) {
-					p := c.Parts[j]
-					if rnd.Intn(3) == 0 {
-						continue
-					}
-					h := p.Href
-					if inRoot {
-						h.Abs, h.Segs = false, append([]string{}, p.Name.Dir...)
-					}
-					alt.Spine = append(alt.Spine, p.ID)
-					alt.Hrefs = append(alt.Hrefs, h)
-				}
-				c.Roots = append(c.Roots, alt)
-				pr.Chain = "random"
-			}
-		} else if rnd.Intn(2) == 0 {
-			pr.Chain = "infraFirst"
-		}
-		c.Prof = pr
+		c := c18RandomCase(rnd, q.K, []string{"xlsx", "pptx", "epub"})
 		path, err := c18WriteCase(&c)
 		if err != nil {
 			panic(err)
